@@ -16,6 +16,14 @@ def extra(res, facts, entries, protos):
     from . import c08_extra
     c08_extra.run(res, facts, entries, protos)
     _proto.refusal_rules(res, "C08.R8", facts)
+    from .. import keys_sem
+    for f in keys_sem.v3_public_key_admission(facts, "C08.S4"):
+        res.oblige(bool(f.ok))
+        if f.ok:
+            res.inst(f.rule, f.desc)
+        else:
+            res.violate(f.rule, f.where, f.construct, f.msg if f.ok is False else "not decided (fail closed): " + f.msg, file=f.file, line=f.line)
+    res.floor("C08.S4", 2)
 
 
 def run(tier):
